@@ -369,6 +369,11 @@ func TestC01(t *testing.T) {
 	c.Assume("in-memory HTTP environment memhttp is a legal net/http stand-in (DESIGN 2.3)", "payload codec (proto/protojson) is not under test", "deterministic LIFO poisoned pool replaces sync.Pool in the instrumented build")
 	thorough := ev.Thorough()
 	if rf := ev.ReplayFile(); rf != "" {
+		var sk c13Case
+		if _, err := ev.LoadReplay(&sk); err == nil && len(sk.Calls) > 0 {
+			c01SchedReplay(t, c, sk)
+			return
+		}
 		var k c01Case
 		if _, err := ev.LoadReplay(&k); err != nil {
 			t.Fatal(err)
@@ -414,6 +419,7 @@ func TestC01(t *testing.T) {
 		}
 	}
 	c01Nested(t, c)
+	c01Sched(t, c, thorough)
 	if thorough {
 		c01Real(c)
 	}
